@@ -892,6 +892,9 @@ func trustedBase() []string {
 		"[]byte values are treated as immutable values (no write through an alias); a zero-length []byte is identified with nil",
 		"defer x.Close() is dropped",
 		"single sequential process; nobody else modifies the repository during a command",
+		"paths are clean (Goit builds every path by filepath.Join from the repository root): joining a valid component is injective and makes the path longer",
+		"os.Getwd, filepath.Abs and filepath.Rel are deterministic within one run (the process never changes directory)",
+		"failure model: creations, writes, mkdir, remove, rename may fail at any time, a failed write leaves that file with unknown content; reads fail only when the path is absent; Close and zlib errors are not modelled",
 	}
 }
 
